@@ -423,6 +423,7 @@ func c04Run(w *core.W) {
 			"composed": {inner, "src = () -> for f <- inner() yield f"},
 			"twice":    {inner, "mid = () -> for f <- inner() yield f", "src = () -> for f <- mid() yield f"},
 			"zipped":   {inner, "src = () -> for f, i <- inner(), fromto(0, 9) yield f"},
+			"helper":   {"each = (c) -> {\n  yield c\n  yield c\n}", "src = () -> {\n  lo = 1\n  v = 41\n  c = () -> v + lo\n  each(c)\n}"},
 		}
 		takes := map[string]string{
 			"first":  "take = () -> {\n  for f <- src() return f\n}",
@@ -435,7 +436,7 @@ func c04Run(w *core.W) {
 			"other = () -> {\n  s = []\n  for f <- src() s = s + [f()]\n  s\n}",
 			"other = () -> {\n  d = (n) -> if n <= 0 0 else 1 + d(n - 1)\n  d(150)\n}",
 		}
-		for _, gk := range []string{"direct", "composed", "twice", "zipped"} {
+		for _, gk := range []string{"direct", "composed", "twice", "zipped", "helper"} {
 			for _, tk := range []string{"first", "third", "nested"} {
 				for _, ch := range churns {
 					st := append(append([]string{}, gens[gk]...), takes[tk], ch,
